@@ -135,6 +135,23 @@ def gen_weights_case(rng):
 
 
 
+def gen_history_case(rng):
+    """(harness line op 15, model line op 5 of the second file alone, kind): a labelled file loaded into an object that has
+    already loaded another labelled file - same labels, disjoint labels, overlapping labels, multi-point labels"""
+    kind = rng.choice(["same", "disjoint", "overlap", "overlap", "permuted", "fewer", "more"])
+    def one(pool, n):
+        ls = [rng.choice(pool) for _ in range(n)]; ws = [rng.randint(-4, 9) for _ in range(n)]; return ls, ws
+    n1 = rng.choice([1, 2, 3, 5, 8]); l1, w1 = one(list(range(0, 4)), n1)
+    n2 = rng.choice([1, 2, 3, 5, 8])
+    if kind == "same": l2, w2 = list(l1), [rng.randint(-4, 9) for _ in l1]
+    elif kind == "disjoint": l2, w2 = one(list(range(10, 14)), n2)
+    elif kind == "permuted": l2 = list(reversed(l1)); w2 = [rng.randint(-4, 9) for _ in l1]
+    elif kind == "fewer": l2, w2 = one(list(set(l1))[:1] + [20], max(1, n1 - 1))
+    elif kind == "more": l2, w2 = one(list(range(0, 7)), n1 + 3)
+    else: l2, w2 = one(list(range(2, 8)), n2)
+    f = lambda ls, ws: [len(ls)] + ls + ws
+    return ("c09 15 " + " ".join(map(str, f(l1, w1) + f(l2, w2))), "c09 5 " + " ".join(map(str, f(l2, w2))), "history:" + kind)
+
 # ------------------------------------------------------------------ interface level (op 2)
 def gen_interface_case(rng):
     den = rng.choice([1, 2, 4]); R = 8 * den
@@ -581,6 +598,19 @@ def main(replay=None):
         if False:
             ck.violation(sig, "%s on case `%s`; the model is the one the theorems of Properties_C09.v are proved about" % (msg, c),
                          dict(kind="correspondence", cases=[c], kinds=[k], model=[m], impl=[i]))
+    # history on the weight-matrix clause: a second load() into an object that already holds labelled sensors must give
+    # the weight matrix of a fresh object (the model of load starts from an empty name list)
+    if not replay or rp.get("history"):
+        hc = [tuple(x) for x in rp["history"]] if replay else [gen_history_case(ck.rng) for _ in range(300 if quick else 3000)]
+        hm = core.run_model([b for _, b, _ in hc]); rch, hi, _e = core.run_harness(hb, [a for a, _, _ in hc], ck.workdir, tag="history")
+        for (a, b, k), m, i in zip(hc, hm, hi):
+            dist[k] = dist.get(k, 0) + 1
+            z, _f = core.fparse(i)
+            if z is None or [int(x) for x in m.split()] != z:
+                mism += 1
+                ck.violation("getWeightsMatrix after a second load: differs from a fresh object",
+                             "Sensors::load of a labelled file into an object that already holds labelled sensors, then getWeightsMatrix: %s; a fresh object (and the model) gives %s; case `%s`" % (i[:120], m[:120], a),
+                             dict(kind="history", history=[[a, b, k]]))
     # a not-nearest answer under the hypothesis of dpc_nearest_partial contradicts the theorem (or the tie)
     for case, od2, id2, hyp in stats["not_nearest"]:
         if hyp:
